@@ -526,6 +526,15 @@ func NewFileReader(readerOptions ...FileReaderOption) (ReaderI, error) {
 		return nil, errors.New("NewFileReader: either os.File or string path must be supplied, never both")
 	}
 
+	if opts.file != nil {
+		// the factory below opens the file by its path, the handle we were given is closed (as NewFileReaderWithFile does)
+		err := opts.file.Close()
+		if err != nil {
+			return nil, fmt.Errorf("error while closing existing file handle at '%s': %w", opts.file.Name(), err)
+		}
+		opts.path = opts.file.Name()
+	}
+
 	f, r, err := opts.factory.CreateNewReader(opts.path, opts.bufferSizeBytes)
 	if err != nil {
 		return nil, err
